@@ -285,12 +285,7 @@ func runCorrupt(sink *Sink, work string, seed uint64, shard, nshard, n int, full
 			sink.finding(Finding{ID: sc.ID, Class: "violation", Kind: "clean-write-mismatch", Detail: "closed log does not parse to the records handed to Save", Sig: "clean-write-mismatch", Scenario: sc})
 			continue
 		}
-		writtenSnaps := map[[2]uint64]bool{{0, 0}: true}
-		for _, l := range wr.Hist {
-			if l.Kind == "snap" {
-				writtenSnaps[[2]uint64{l.Index, l.Term}] = true
-			}
-		}
+		writtenSnaps := snapsOf(wr.Hist)
 		if shard == 0 {
 			sink.stats.Cases++
 		}
@@ -312,78 +307,196 @@ func runCorrupt(sink *Sink, work string, seed uint64, shard, nshard, n int, full
 					if trace {
 						fmt.Println("BEGIN", sc.ID, name, x, m)
 					}
-					mut := append([]byte(nil), orig...)
-					mut[x] ^= m
-					data := map[string][]byte{}
-					for _, nn := range set.Names {
-						data[nn] = set.Data[nn]
-					}
-					data[name] = mut
-					if err := writeImage(img, set.Names, data); err != nil {
-						fmt.Fprintln(os.Stderr, "infra:", err)
-						os.Exit(3)
-					}
-					rt, field := classify(frames[name], ends[name], x)
-					where := fmt.Sprintf("file#%d/%d", fi+1, len(set.Names))
-					if fi == len(set.Names)-1 {
-						where = "lastfile"
-					} else {
-						where = "earlierfile"
-					}
-					sigBase := fmt.Sprintf("wal/%s/%s/%s/xor%02x", where, rt, field, m)
-					mk := func(reader, kind, detail string, real interface{}) {
-						sink.finding(Finding{ID: sc.ID, Class: "violation", Kind: kind, Detail: fmt.Sprintf("%s after flipping byte %d of %s (xor %#02x, %s %s): %s", reader, x, name, m, rt, field, detail),
-							Sig: sigBase + "/" + reader + "/" + kind,
-							Scenario: map[string]interface{}{"image_of": sc, "seed": seed, "file": name, "file_index": fi, "offset": x, "xor": m}, Real: real})
-					}
-					sink.label("field=" + rt + "/" + field)
-					// read mode
-					ro := readRead(img, walpb.Snapshot{})
-					sink.stats.Reads++
-					judge(sink, "ReadAll(read)", ro, wr, true, mk)
-					vo := readVerify(img, walpb.Snapshot{})
-					sink.stats.Reads++
-					judge(sink, "Verify", vo, wr, false, mk)
-					// ValidSnapshotEntries
-					func() {
-						defer func() {
-							if p := recover(); p != nil {
-								mk("ValidSnapshotEntries", "panic", fmt.Sprint(p), nil)
-							}
-						}()
-						snaps, err := wal.ValidSnapshotEntries(lg, img)
-						sink.stats.Reads++
-						if err == nil {
-							for _, s := range snaps {
-								if !writtenSnaps[[2]uint64{s.Index, s.Term}] {
-									mk("ValidSnapshotEntries", "corrupt-accepted", fmt.Sprintf("returned snapshot {index %d term %d} that was never saved", s.Index, s.Term), nil)
-								}
-							}
-						}
-					}()
-					// write mode (+ Repair)
-					rc, w := recoverDir(img)
-					sink.stats.Reads++
-					if w != nil {
-						func() { defer func() { recover() }(); w.Close() }()
-					}
-					if rc.Panic != "" {
-						mk("Open+ReadAll(write)", "panic", rc.Panic, rc)
-					} else if rc.Ok {
-						if k := matchPrefix(wr.Hist, len(wr.Hist), rc.Out.Hs, rc.Out.Ents, true, true); k < 0 {
-							mk("Open+ReadAll(write)", "corrupt-accepted", fmt.Sprintf("returned hard state %v and %d entries (last index %d): not a prefix of what was written (repair=%v)", rc.Out.Hs, rc.Out.Nents, rc.Out.Last, rc.Rep), rc)
-						} else {
-							sink.label(fmt.Sprintf("accepted.prefix"))
-						}
-					} else {
-						sink.label("rejected")
-					}
+					flipAndJudge(sink, sc, wr, set, frames, ends, fi, x, m, seed, img, writtenSnaps)
 				}
 			}
 		}
 	}
 	os.RemoveAll(img)
 	os.RemoveAll(base)
+}
+
+
+// flipAndJudge flips one byte of one file of a cleanly closed log, runs every real reader on the result and
+// judges what they return by the contract ("an unmodified prefix of what was written, or an error").
+// It returns the outcome of the write-mode recovery: rejected | prefix | nonprefix | panic.
+func flipAndJudge(sink *Sink, sc *Scenario, wr *WriteResult, set *FileSet, frames map[string][]Frame, ends map[string]int64,
+	fi int, x int64, m byte, seed uint64, img string, writtenSnaps map[[2]uint64]bool) string {
+	name := set.Names[fi]
+	orig := set.Data[name]
+	mut := append([]byte(nil), orig...)
+	mut[x] ^= m
+	data := map[string][]byte{}
+	for _, nn := range set.Names {
+		data[nn] = set.Data[nn]
+	}
+	data[name] = mut
+	if err := writeImage(img, set.Names, data); err != nil {
+		fmt.Fprintln(os.Stderr, "infra:", err)
+		os.Exit(3)
+	}
+	rt, field := classify(frames[name], ends[name], x)
+	where := "earlierfile"
+	if fi == len(set.Names)-1 {
+		where = "lastfile"
+	}
+	sigBase := fmt.Sprintf("wal/%s/%s/%s/xor%02x", where, rt, field, m)
+	mk := func(reader, kind, detail string, real interface{}) {
+		sink.finding(Finding{ID: sc.ID, Class: "violation", Kind: kind, Detail: fmt.Sprintf("%s after flipping byte %d of %s (xor %#02x, %s %s): %s", reader, x, name, m, rt, field, detail),
+			Sig: sigBase + "/" + reader + "/" + kind,
+			Scenario: map[string]interface{}{"image_of": sc, "seed": seed, "file": name, "file_index": fi, "offset": x, "xor": m}, Real: real})
+	}
+	sink.label("field=" + rt + "/" + field)
+	// read mode
+	ro := readRead(img, walpb.Snapshot{})
+	sink.stats.Reads++
+	judge(sink, "ReadAll(read)", ro, wr, true, mk)
+	if ro.Panic == "" {
+		emitTrace(fmt.Sprintf("%s/flip-%s-%d-%02x/read", sc.ID, name[:16], x, m), "corrupt", wr.Hist, 0, 0, ro.Err == "", ro.Hs, ro.Ents)
+	}
+	vo := readVerify(img, walpb.Snapshot{})
+	sink.stats.Reads++
+	judge(sink, "Verify", vo, wr, false, mk)
+	// ValidSnapshotEntries
+	func() {
+		defer func() {
+			if p := recover(); p != nil {
+				mk("ValidSnapshotEntries", "panic", fmt.Sprint(p), nil)
+			}
+		}()
+		snaps, err := wal.ValidSnapshotEntries(lg, img)
+		sink.stats.Reads++
+		if err == nil {
+			for _, s := range snaps {
+				if !writtenSnaps[[2]uint64{s.Index, s.Term}] {
+					mk("ValidSnapshotEntries", "corrupt-accepted", fmt.Sprintf("returned snapshot {index %d term %d} that was never saved", s.Index, s.Term), nil)
+				}
+			}
+		}
+	}()
+	// write mode (+ Repair)
+	rc, w := recoverDir(img)
+	sink.stats.Reads++
+	if w != nil {
+		func() { defer func() { recover() }(); w.Close() }()
+	}
+	if rc.Panic != "" {
+		mk("Open+ReadAll(write)", "panic", rc.Panic, rc)
+		return "panic"
+	}
+	if rc.Ok {
+		if k := matchPrefix(wr.Hist, len(wr.Hist), rc.Out.Hs, rc.Out.Ents, true, true); k < 0 {
+			mk("Open+ReadAll(write)", "corrupt-accepted", fmt.Sprintf("returned hard state %v and %d entries (last index %d): not a prefix of what was written (repair=%v)", rc.Out.Hs, rc.Out.Nents, rc.Out.Last, rc.Rep), rc)
+			return "nonprefix"
+		}
+		sink.label("accepted.prefix")
+		return "prefix"
+	}
+	sink.label("rejected")
+	return "rejected"
+}
+
+func snapsOf(hist []Logical) map[[2]uint64]bool {
+	out := map[[2]uint64]bool{{0, 0}: true}
+	for _, l := range hist {
+		if l.Kind == "snap" {
+			out[[2]uint64{l.Index, l.Term}] = true
+		}
+	}
+	return out
+}
+
+// replayCorruptScenario: a Corrupt scenario of Wal.tla - the model names the record word and the kind of
+// damage; the harness picks a concrete byte of that class.
+func replayCorruptScenario(sink *Sink, sc *Scenario, work string, seed uint64) {
+	sink.stats.Cases++
+	base := filepath.Join(work, "w")
+	img := filepath.Join(work, "img")
+	var wr *WriteResult
+	ok := false
+	for attempt := 0; attempt < 6 && !ok; attempt++ {
+		if wr != nil && wr.W != nil {
+			wr.W.Close()
+		}
+		wr = runOps(base, sc, seed+uint64(attempt)*7919, 0)
+		if wr.Err != "" {
+			if wr.W != nil {
+				wr.W.Close()
+			}
+			sink.finding(Finding{ID: sc.ID, Class: "skip", Kind: "writer", Detail: wr.Err, Sig: "writer"})
+			return
+		}
+		ok = layoutMatches(sc, wr)
+	}
+	wr.W.Close()
+	if !ok {
+		sink.finding(Finding{ID: sc.ID, Class: "skip", Kind: "layout", Detail: "record sizes differ", Sig: "layout"})
+		return
+	}
+	set, err := readDir(base)
+	if err != nil {
+		fmt.Fprintln(os.Stderr, "infra:", err)
+		os.Exit(3)
+	}
+	_, frames, ends, _ := parseSet(set.Names, set.Data)
+	fi := sc.Cor.Seg - 1
+	if fi < 0 || fi >= len(set.Names) {
+		sink.finding(Finding{ID: sc.ID, Class: "skip", Kind: "layout", Detail: "segment count differs", Sig: "layout-seg"})
+		return
+	}
+	name := set.Names[fi]
+	r := &rng{s: seed ^ hashStr(sc.ID) ^ 0x5151}
+	wordOff := int64(sc.Cor.X) * 8
+	var x int64 = -1
+	m := masks[r.intn(3)]
+	var fr *Frame
+	for i := range frames[name] {
+		f := &frames[name][i]
+		if wordOff >= f.Off && wordOff < f.Off+int64(f.Words)*8 {
+			fr = f
+		}
+	}
+	switch sc.Cor.Kind {
+	case "len":
+		x = wordOff + int64(r.intn(7))
+	case "type":
+		if fr != nil {
+			for _, f := range fr.fields {
+				if f.num == 1 && f.wt == 0 {
+					x = fr.Off + 8 + int64(f.voff)
+				}
+			}
+		}
+		m = 0x01
+	case "data":
+		if fr != nil {
+			var cand []int64
+			for b := wordOff; b < wordOff+8; b++ {
+				rel := b - fr.Off - 8
+				if rel < 0 || rel >= int64(fr.RecLen) {
+					continue // padding
+				}
+				if _, fld := classify(frames[name], ends[name], b); fld == "type.val" {
+					continue // that is the "type" kind
+				}
+				cand = append(cand, b)
+			}
+			if len(cand) > 0 {
+				x = cand[r.intn(len(cand))]
+			}
+		}
+	}
+	if x < 0 || x >= int64(len(set.Data[name])) {
+		sink.finding(Finding{ID: sc.ID, Class: "skip", Kind: "layout", Detail: "no byte of the prescribed class at that word", Sig: "layout-cor"})
+		return
+	}
+	out := flipAndJudge(sink, sc, wr, set, frames, ends, fi, x, m, seed, img, snapsOf(wr.Hist))
+	sink.label("model-corrupt." + sc.Cor.Kind + "=" + out)
+	if (out == "nonprefix") != sc.NonPrefix && out != "panic" {
+		sink.finding(Finding{ID: sc.ID, Class: "divergence", Kind: "prediction", Detail: fmt.Sprintf("corruption %s at word %d of file %d: model accepted-non-prefix=%v, real outcome %s", sc.Cor.Kind, sc.Cor.X, sc.Cor.Seg, sc.NonPrefix, out), Sig: "prediction/corrupt-" + sc.Cor.Kind, Scenario: sc})
+	}
+	sink.sample(map[string]interface{}{"corrupt_scenario": sc, "byte": x, "xor": m, "real": out})
+	os.RemoveAll(img)
 }
 
 func totalLen(s *FileSet) int {
@@ -802,4 +915,61 @@ func runSnapReplay(sink *Sink, work string, seed uint64, in string) {
 		}
 	}
 	os.RemoveAll(dir)
+}
+
+// ---------------------------------------------------------------- re-run of one recorded case
+
+func runOne(sink *Sink, work string, seed uint64, in string) {
+	b, err := os.ReadFile(in)
+	if err != nil {
+		fmt.Fprintln(os.Stderr, err)
+		os.Exit(3)
+	}
+	var art struct {
+		Replay struct {
+			Seed    uint64 `json:"seed"`
+			Finding struct {
+				Scenario json.RawMessage `json:"scenario"`
+			} `json:"finding"`
+		} `json:"replay"`
+	}
+	if err := json.Unmarshal(b, &art); err != nil || len(art.Replay.Finding.Scenario) == 0 {
+		fmt.Fprintln(os.Stderr, "not a C16 replay artefact:", err)
+		os.Exit(3)
+	}
+	if art.Replay.Seed != 0 {
+		seed = art.Replay.Seed
+	}
+	var flip struct {
+		ImageOf   *Scenario `json:"image_of"`
+		Seed      uint64    `json:"seed"`
+		FileIndex int       `json:"file_index"`
+		Offset    int64     `json:"offset"`
+		Xor       byte      `json:"xor"`
+	}
+	if json.Unmarshal(art.Replay.Finding.Scenario, &flip) == nil && flip.ImageOf != nil {
+		sc := flip.ImageOf
+		base := filepath.Join(work, "w")
+		wr := runOps(base, sc, flip.Seed, 1)
+		if wr.Err != "" {
+			fmt.Fprintln(os.Stderr, "writer:", wr.Err)
+			os.Exit(3)
+		}
+		wr.W.Close()
+		set, _ := readDir(base)
+		_, frames, ends, _ := parseSet(set.Names, set.Data)
+		out := flipAndJudge(sink, sc, wr, set, frames, ends, flip.FileIndex, flip.Offset, flip.Xor, flip.Seed, filepath.Join(work, "img"), snapsOf(wr.Hist))
+		fmt.Println("outcome of write-mode recovery:", out)
+		return
+	}
+	var sc Scenario
+	if err := json.Unmarshal(art.Replay.Finding.Scenario, &sc); err != nil || len(sc.Ops) == 0 {
+		fmt.Fprintln(os.Stderr, "this artefact has no crash/corruption scenario (snapshot-file findings: re-run `walsim snap` with the recorded seed)")
+		os.Exit(3)
+	}
+	if sc.Cor.Kind != "" && sc.Cor.Kind != "none" {
+		replayCorruptScenario(sink, &sc, work, seed)
+	} else {
+		replayScenario(sink, &sc, work, seed)
+	}
 }
